@@ -171,9 +171,18 @@ func TwistExtrude3D(sdf SDF2, height, twist float64) SDF3 {
 	s.extrude = TwistExtrude(height, twist)
 	// work out the bounding box
 	bb := sdf.BoundingBox()
-	l := bb.Max.Length()
+	l := maxVertexLength2(bb)
 	s.bb = Box3{v3.Vec{-l, -l, -s.height}, v3.Vec{l, l, s.height}}
 	return &s
+}
+
+// maxVertexLength2 returns the distance from the origin to the furthest vertex of a 2d box.
+func maxVertexLength2(bb Box2) float64 {
+	l := 0.0
+	for _, v := range bb.Vertices() {
+		l = math.Max(l, v.Length())
+	}
+	return l
 }
 
 // ScaleExtrude3D extrudes an SDF2 and scales it over the height of the extrusion.
@@ -197,9 +206,11 @@ func ScaleTwistExtrude3D(sdf SDF2, height, twist float64, scale v2.Vec) SDF3 {
 	s.extrude = ScaleTwistExtrude(height, twist, scale)
 	// work out the bounding box
 	bb := sdf.BoundingBox()
-	bb = bb.Extend(Box2{bb.Min.Mul(scale), bb.Max.Mul(scale)})
-	l := bb.Max.Length()
-	s.bb = Box3{v3.Vec{-l, -l, -s.height}, v3.Vec{l, l, s.height}}
+	// the twist sweeps the profile through a disc, the scaling then stretches each axis
+	l := maxVertexLength2(bb)
+	lx := l * math.Max(1, scale.X)
+	ly := l * math.Max(1, scale.Y)
+	s.bb = Box3{v3.Vec{-lx, -ly, -s.height}, v3.Vec{lx, ly, s.height}}
 	return &s
 }
 
